@@ -28,7 +28,7 @@ theorem postTokNext_respell (cur : List Node) (p t : Nat) (n : Option Nat) :
 theorem postPrevTok_respell (cur : List Node) (p t : Nat) (n : Option Nat) :
     postPrevTok (cur.map (respell f)) p t n = (postPrevTok cur p t n).map (fun x => (x.1.map (respell f), x.2)) := rfl
 
-theorem postPeriod_respell (ha : Admissible upper f) (cur : List Node) (p t : Nat) (n : Option Nat) :
+theorem postPeriod_respell (ha : AdmissibleNames upper f) (cur : List Node) (p t : Nat) (n : Option Nat) :
     postPeriod upper (cur.map (respell f)) p t n =
       (postPeriod upper cur p t n).map (fun x => (x.1.map (respell f), x.2)) := by
   cases n with
@@ -41,7 +41,7 @@ theorem postPeriod_respell (ha : Admissible upper f) (cur : List Node) (p t : Na
       simp only [Option.map_some, respell_imt ha nx _ [] _ rfl]
       split <;> rfl
 
-theorem postAssignment_respell (ha : Admissible upper f) (cur : List Node) (p t : Nat) (n : Option Nat) :
+theorem postAssignment_respell (ha : AdmissibleNames upper f) (cur : List Node) (p t : Nat) (n : Option Nat) :
     postAssignment upper (cur.map (respell f)) p t n =
       (postAssignment upper cur p t n).map (fun x => (x.1.map (respell f), x.2)) := by
   cases n with
@@ -55,11 +55,11 @@ theorem postAssignment_respell (ha : Admissible upper f) (cur : List Node) (p t 
 theorem isSomeTok_respell (o : Option Node) : isSomeTok (o.map (respell f)) = isSomeTok o := by
   cases o <;> rfl
 
-theorem cfgTypecasts_respell (ha : Admissible upper f) : CfgComm f (cfgTypecasts upper) NoInv :=
+theorem cfgTypecasts_respell (ha : AdmissibleNames upper f) : CfgComm f (cfgTypecasts upper) NoInv :=
   cfgComm_of (fun k => respell_matchAny' ha k _ (by decide)) (fun _ => rfl) isSomeTok_respell
     (fun cur t p n => postPrevNext_respell cur p t n)
 
-theorem cfgTzcasts_respell (ha : Admissible upper f) : CfgComm f (cfgTzcasts upper) NoInv :=
+theorem cfgTzcasts_respell (ha : AdmissibleNames upper f) : CfgComm f (cfgTzcasts upper) NoInv :=
   cfgComm_of (fun k => by simp [cfgTzcasts]) (fun _ => rfl)
     (fun o => by
       cases o with
@@ -70,7 +70,7 @@ theorem cfgTzcasts_respell (ha : Admissible upper f) : CfgComm f (cfgTzcasts upp
           respell_matchAny' ha t Gen.group_tzcasts_match1 (by decide)])
     (fun cur t p n => postPrevNext_respell cur p t n)
 
-theorem cfgTypedLiteral0_respell (ha : Admissible upper f) : CfgComm f (cfgTypedLiteral0 upper) NoInv :=
+theorem cfgTypedLiteral0_respell (ha : AdmissibleNames upper f) : CfgComm f (cfgTypedLiteral0 upper) NoInv :=
   cfgComm_of (fun k => respell_imt ha k [] Gen.group_typed_literal_imt0_m .none (by decide)) (fun _ => rfl)
     (fun o => by
       cases o with
@@ -80,7 +80,7 @@ theorem cfgTypedLiteral0_respell (ha : Admissible upper f) : CfgComm f (cfgTyped
           respell_matchAny' ha t Gen.group_typed_literal_match0 (by decide)])
     (fun cur t p n => postTokNext_respell cur p t n)
 
-theorem cfgTypedLiteral1_respell (ha : Admissible upper f) : CfgComm f (cfgTypedLiteral1 upper) NoInv :=
+theorem cfgTypedLiteral1_respell (ha : AdmissibleNames upper f) : CfgComm f (cfgTypedLiteral1 upper) NoInv :=
   cfgComm_of (fun k => by simp [cfgTypedLiteral1]) (fun _ => rfl)
     (fun o => by
       cases o with
@@ -90,51 +90,51 @@ theorem cfgTypedLiteral1_respell (ha : Admissible upper f) : CfgComm f (cfgTyped
           respell_matchAny' ha t Gen.group_typed_literal_match1 (by decide)])
     (fun cur t p n => postTokNext_respell cur p t n)
 
-theorem cfgPeriod_respell (ha : Admissible upper f) : CfgComm f (cfgPeriod upper) NoInv :=
+theorem cfgPeriod_respell (ha : AdmissibleNames upper f) : CfgComm f (cfgPeriod upper) NoInv :=
   cfgComm_of (fun k => respell_matchAny' ha k _ (by decide)) (fun k => respell_imt ha k Gen.group_period_valid_prev_sqlcls [] Gen.group_period_valid_prev_ttypes rfl) (fun _ => rfl)
     (fun cur t p n => postPeriod_respell ha cur p t n)
 
-theorem cfgAs_respell (ha : Admissible upper f) : CfgComm f (cfgAs upper) NoInv :=
+theorem cfgAs_respell (ha : AdmissibleNames upper f) : CfgComm f (cfgAs upper) NoInv :=
   cfgComm_of (fun k => respell_kwNormalized ha k _) (fun k => respell_normalizedOrNotKw ha k _)
     (fun o => by
       simp only [cfgAs, respell_imtOpt ha o [] [] _ rfl]
       cases o <;> rfl)
     (fun cur t p n => postPrevNext_respell cur p t n)
 
-theorem validAssignment_respell (ha : Admissible upper f) (o : Option Node) :
+theorem validAssignment_respell (ha : AdmissibleNames upper f) (o : Option Node) :
     validAssignment upper (o.map (respell f)) = validAssignment upper o := by
   cases o with
   | none => rfl
   | some t => simp only [validAssignment, Option.map_some, respell_imt ha t [] [] _ rfl]
 
-theorem cfgAssignment_respell (ha : Admissible upper f) : CfgComm f (cfgAssignment upper) NoInv :=
+theorem cfgAssignment_respell (ha : AdmissibleNames upper f) : CfgComm f (cfgAssignment upper) NoInv :=
   cfgComm_of (fun k => respell_matchAny' ha k _ (by decide)) (fun k => validAssignment_respell ha (some k))
     (validAssignment_respell ha) (fun cur t p n => postAssignment_respell ha cur p t n)
 
-theorem validComparison_respell (ha : Admissible upper f) (o : Option Node) :
+theorem validComparison_respell (ha : AdmissibleNames upper f) (o : Option Node) :
     validComparison upper (o.map (respell f)) = validComparison upper o := by
   cases o with
   | none => rfl
   | some t =>
     simp only [validComparison, Option.map_some, respell_imt ha t _ [] _ rfl, respell_kwNormalized ha t]
 
-theorem cfgComparison_respell (ha : Admissible upper f) : CfgComm f (cfgComparison upper) NoInv :=
+theorem cfgComparison_respell (ha : AdmissibleNames upper f) : CfgComm f (cfgComparison upper) NoInv :=
   cfgComm_of (fun k => by simp [cfgComparison]) (fun k => validComparison_respell ha (some k))
     (validComparison_respell ha) (fun cur t p n => postPrevNext_respell cur p t n)
 
-theorem cfgArrays_respell (ha : Admissible upper f) : CfgComm f (cfgArrays upper) NoInv :=
+theorem cfgArrays_respell (ha : AdmissibleNames upper f) : CfgComm f (cfgArrays upper) NoInv :=
   cfgComm_of (fun k => by simp [cfgArrays]) (fun k => respell_imt ha k Gen.group_arrays_sqlcls [] Gen.group_arrays_ttypes rfl) (fun _ => rfl)
     (fun cur t p n => postPrevTok_respell cur p t n)
 
-theorem validIdentifierList_respell (ha : Admissible upper f) (o : Option Node) :
+theorem validIdentifierList_respell (ha : AdmissibleNames upper f) (o : Option Node) :
     validIdentifierList upper (o.map (respell f)) = validIdentifierList upper o :=
   respell_imtOpt ha o _ _ _ (by decide)
 
-theorem cfgIdentifierList_respell (ha : Admissible upper f) : CfgComm f (cfgIdentifierList upper) NoInv :=
+theorem cfgIdentifierList_respell (ha : AdmissibleNames upper f) : CfgComm f (cfgIdentifierList upper) NoInv :=
   cfgComm_of (fun k => respell_matchAny' ha k _ (by decide)) (fun k => validIdentifierList_respell ha (some k))
     (validIdentifierList_respell ha) (fun cur t p n => postPrevNext_respell cur p t n)
 
-theorem typedLiteralPass_respell (ha : Admissible upper f) : PassComm f (typedLiteralPass upper) := by
+theorem typedLiteralPass_respell (ha : AdmissibleNames upper f) : PassComm f (typedLiteralPass upper) := by
   intro fuel c ks
   simp only [typedLiteralPass]
   rw [groupDriver_respell fuel (cfgTypedLiteral0_respell ha) ks]
